@@ -215,7 +215,11 @@ impl<'ctx> Ledger<'ctx> {
                 target,
             }) => {
                 let mut converted = Balance::default();
-                for (account, original_amount) in balance.iter() {
+                // Balance doesn't have a stable order,
+                // sort them so that the reported error is always the same.
+                let mut accounts: Vec<(&Account<'ctx>, &Amount<'ctx>)> = balance.iter().collect();
+                accounts.sort_unstable_by_key(|(account, _)| account.as_str());
+                for (account, original_amount) in accounts {
                     converted.add_amount(
                         *account,
                         price_db::convert_amount(
